@@ -532,6 +532,13 @@ func (ri *reflectInspector) recursivelyRecordUsedForReflectImpl(t types.Type, vi
 		if obj.Pkg() == nil {
 			return
 		}
+		// The type arguments of an instantiation show up in its reflected name
+		// and can be the types of its fields.
+		if targs := t.TypeArgs(); targs != nil {
+			for i := range targs.Len() {
+				ri.recursivelyRecordUsedForReflectImpl(targs.At(i), visited)
+			}
+		}
 		if ri.usedForReflect(obj) {
 			return // prevent endless recursion
 		}
